@@ -135,3 +135,14 @@ Theorem C01_queries_report_list :
   /\ (forall s e, run_op shuf fuel (Slice s e) w = (Ok (RTlts (py_slice (World.tl w) (Some s) (Some e))), w)).
 Proof. exact queries_report_list_lemma. Qed.
 Print Assumptions C01_queries_report_list.
+
+(* index(tl_track=x) reports the position of exactly that entry: the first position holding an
+   entry with x's ID AND x's track, none when there is no such entry (an object with an entry's
+   ID but another track is not an entry), and changes nothing. *)
+Theorem C01_index_of_entry :
+  forall shuf fuel x w,
+  run_op shuf fuel (IndexOf x) w = (Ok (ROptZ (py_index x (World.tl w))), w)
+  /\ (forall i, py_index x (World.tl w) = Some i -> nth_z (World.tl w) i = Some x)
+  /\ (py_index x (World.tl w) = None -> ~ In x (World.tl w)).
+Proof. exact index_of_entry_lemma. Qed.
+Print Assumptions C01_index_of_entry.
